@@ -67,10 +67,10 @@ CLAIMED["C14"] = ("23 theorems on the router model (registry + world of Model.Pa
     "createPair guard set and effect, removePair; management endpoints, upgrade, user-enabled swaps and every multiPairSwap hop act only on registered pairs and an unregistered hop fails the call; "
     "multi-hop ledger: router delta 0 for every token, caller delta = -input + payments, each hop is exactly Pair.step on that pair alone (C03 formulas apply), any failing hop fails all, failed step leaves the world unchanged. "
     "Tied to router + pair template by differential replay (registry views, flags, balances, 12 observables per pair).", "23 C14", "Coq reachable-state invariant + characterisation theorems + correspondence")
-CLAIMED["C15"] = ("57 theorems: 16 on the CLOSED composition (Props/C15_closed.v: the LP-farm, staking-farm answers are computed by Model/FarmLocked / Model/StakingPos, all laws discharged, backing/parts/unstake/safe hold with NO law hypothesis, cross-contract conservation: proxy balances = positions the callee models hold for the proxy, staking virtual principal = sum recorded in outstanding dual-yield tokens), 22 on the on-behalf endpoints with the permissions hub (Props/C15_behalf.v), and 19 theorems on the farm-staking-proxy model (callee answers are inputs; interface laws L1-L7 are boolean predicates checked on every real answer and ALL proved on the callee models: L1-L3 on Model/Farm, L3-L5 on Model/StakingPos, L6 on Model/Pair, L7 on Model/SafePrice): "
+CLAIMED["C15"] = ("59 theorems: 2 in Props/C15_twap.v (the trace checker that evaluates law L7 - registered staking value = documented time-weighted average of start-of-round reserves - on an independent ledger is sound); 16 on the CLOSED composition (Props/C15_closed.v: the LP-farm, staking-farm answers are computed by Model/FarmLocked / Model/StakingPos, all laws discharged, backing/parts/unstake/safe hold with NO law hypothesis, cross-contract conservation: proxy balances = positions the callee models hold for the proxy, staking virtual principal = sum recorded in outstanding dual-yield tokens), 22 on the on-behalf endpoints with the permissions hub (Props/C15_behalf.v), and 19 theorems on the farm-staking-proxy model (callee answers are inputs; interface laws L1-L7 are boolean predicates checked on every real answer and ALL proved on the callee models: L1-L3 on Model/Farm, L3-L5 on Model/StakingPos, L6 on Model/Pair, L7 on Model/SafePrice): "
     "for every history the proxy holds exactly the LP-farm and staking-farm tokens its outstanding dual-yield tokens record, all fungible balances 0; partial redemption = floor of the proportional share, sum of parts never exceeds the whole; "
     "unstake output order and unbond amount; registered staking value is the staking side of the safe-price (TWAP) answer and the only price query. Tied to the real pair + farm-with-locked-rewards + farm-staking + proxy by differential replay.",
-    "57 C15", "Coq inductive invariant + characterisation theorems relative to stated callee laws + correspondence")
+    "59 C15", "Coq inductive invariant + characterisation theorems relative to stated callee laws + correspondence")
 CLAIMED["C19"] = ("83 theorems: 24 on the permissions / pausable state machine over histories (Props/C19_perm.v: add = or, remove = and-not and never gains a bit, idempotence, holders = granted and not since revoked, a revoked keeper can neither pause nor resume); 27 on the behavioural on-behalf models (Props/C19_behalf.v: a call succeeds only for a hub-listed, non-blacklisted agent with every paid position recorded for the user; rewards incl. locked receipts go to the user only; failure leaves the state unchanged; no principal leaves through on-behalf endpoints) and 32 on the table: the access table (648 rows = every exported endpoint of the 16 contracts in Gen/Endpoints.v, regenerated from the source each run, plus on-behalf variants incl. mixed-owner multi-payment calls; 13,230 cells) proved exhaustively by vm_compute + forallb_forall: allowed => caller holds the demanded role / is a configured counterparty / authorised agent; "
     "fund-moving rows disallowed when inactive or paused (pair bootstrap exception), partial-active = liquidity only; inventory covered, #[only_owner] attributes agree; for all inputs: require_any_of rule, no escalation and powerless callers over every permissions/hub history, on-behalf rule = hub view, revocation/blacklist stick, rewards to the original owner; "
     "on Model.Pair / Model.Farm for all states and arguments: inactive => no user-funds operation. Tied by executing the complete endpoint x role x state matrix on the real contracts (state restored between cells) and comparing every verdict; failing calls must not change state.",
